@@ -430,7 +430,7 @@ PROPS = {
         theorems=["Exmex.C15.consumeNodes_spec", "Exmex.C15.consuming_eq_cloning"],
         rule="flat generator (random tables, chains with repeated variables, folded and unfolded); eval_vec on a clone-counting data type whose Default is a visible hole; non-trivial = at least two binary operators; distinct by request hash",
         kinds=[dict(kind="flat", quick=24000, thorough=600000, args=["vars_repeat"],
-                    corr=["cons", "c", "vars"], oracle=[("cons_nf", "spec_nf"), ("clones", "sclones")],
+                    corr=["cons", "c", "vars"], oracle=[("cons_nf", "spec_nf"), ("wcons_nf", "spec_nf"), ("witer_nf", "spec_nf"), ("clones", "sclones")],
                     guards=["render", "toks"], nontrivial=flat_nontrivial)],
     ),
     "C14": dict(
@@ -438,7 +438,9 @@ PROPS = {
         modules=["Exmex.Props.C14"],
         theorems=["Exmex.C14.evalBinary_word_any_order", "Exmex.C14.evalBinary_words_any_order", "Exmex.C14.evalNumbers_any_order"],
         rule="eval_binary through the hook: all 46233 orders of 1..8 operators (exhaustive), structured and random orders for 3..1000 operands incl. both sides of 64/128/192/256; NumberTracker (usize, [usize] of 1..5 words) driven with random legal get_previous/get_next/ignore sequences; non-trivial = at least 3 operands / at least one query; distinct by request hash",
-        kinds=[
+        kinds=[dict(kind="flat", quick=3000, thorough=60000, args=["sizes"], corr=["wo", "vars"],
+                    oracle=[("wo_nf", "spec_nf"), ("c_nf", "spec_nf"), ("wcons_nf", "spec_nf")], guards=["render", "toks"], nontrivial=flat_nontrivial),
+               
             dict(kind="orderx", quick=46233, thorough=46233, single=True, corr=["w", "ws"], oracle=[("w", "spec"), ("ws", "spec")], nontrivial=order_nontrivial),
             dict(kind="order", quick=4000, thorough=60000, corr=["w", "ws"], oracle=[("w", "spec"), ("ws", "spec")], nontrivial=order_nontrivial),
             dict(kind="track", quick=4000, thorough=100000, corr=["r"], oracle=[("r", "flags")], nontrivial=always),
